@@ -15,7 +15,8 @@ def harness_spec(D, periodic, omp=True, wide=False, starpu=False):
         srcs.append("mock_gomp.cpp")
     if starpu:
         import os
-        flags += ["-DUSE_STARPU", "-I" + os.path.join(common.VERIF, "harness", "mock_starpu")]
+        flags += ["-DUSE_STARPU", "-I" + os.path.join(common.VERIF, "harness", "mock_starpu"),
+                  "-DUSE_SPECX", "-I" + os.path.join(common.VERIF, "harness", "mock_specx")]
         srcs.append("mock_starpu.cpp")
     return {"name": name, "sources": srcs, "flags": flags}
 
